@@ -166,7 +166,7 @@ META.update({
                 "within the bound; every representation is built as the real container, its accessors compared with "
                 "Logical(c), and one representative of every function family required to be bit-identical on every "
                 "representation, wrapper, output container and output path." + ENUM,
-        "note": NOTE + " Polars cells run in the thorough tier only (build time); std / ndarray / Polars internals trusted.",
+        "note": NOTE + " std / ndarray / Polars internals trusted; one known finding (fast-path input with a Polars output container).",
         "design": "DESIGN.md section 6 C07",
     },
     "C15": {
